@@ -51,6 +51,10 @@ impl SharedGroup {
             Strategy::Random => {
                 self.current_client_index = rand::thread_rng().gen_range(0..self.clients.len());
                 #[cfg(rumqtt_verif)]
+                if let Some(n) = crate::verif::forced_index(self.clients.len()) {
+                    self.current_client_index = n;
+                }
+                #[cfg(rumqtt_verif)]
                 crate::verif::record_choice("random", format!("{}", self.current_client_index));
             }
             Strategy::Sticky => {}
